@@ -114,6 +114,9 @@ class Builtins:
             return self.call_builder(name[8:], f.recv, args, kwargs, st, node)
         if name.startswith('spec.'):
             return self.call_spec(name[5:], args, kwargs, st, node)
+        if name.startswith('supermeth.'):
+            # super().__init__() / __init_subclass__(...) of classes outside the repository: no observable effect here
+            return [(self.none(), st)]
         h = getattr(self, 'bi_' + name.replace('.', '_'), None)
         if h is None:
             if f.recv is not None and isinstance(f.recv, VClass):
@@ -316,6 +319,18 @@ class Builtins:
         if isinstance(o, VVal) and (o.fresh or str(o.term) in self.mutable_terms):
             return True
         return False
+
+    def concat_list(self, cur, src, st):
+        """cur ++ elements of the iteration source src, as a list builder (pointwise facts, no z3 lambda)."""
+        th = self.th
+        A = th.fresh('cat_arr', th.SeqA)
+        i = th.fresh('i', th.I)
+        s0 = State(dict(st.env), [])
+        ev = self.toVal(src.at(i, s0), s0)
+        st.add(src.n >= 0,
+               z3.ForAll([i], z3.Implies(z3.And(i >= 0, i < cur.n), z3.Select(A, i) == z3.Select(cur.arr, i))),
+               z3.ForAll([i], z3.Implies(z3.And(i >= 0, i < src.n), z3.And(*(s0.pc + [z3.Select(A, cur.n + i) == ev])))))
+        return VListB(A, cur.n + src.n)
 
     def frame_ok(self, st, what):
         """A mutating operation whose receiver was created inside the function (ownership check passed)."""
@@ -862,12 +877,7 @@ class Builtins:
                 src = self.itersrc(o, st, node.args[0] if node is not None else None)
                 if src.keep is not None or src.static is not None:
                     raise OutOfSubset('list.extend with filtered source', node)
-                i = z3.Int('i!ext')
-                s0 = State(dict(st.env), [])
-                ev = self.toVal(src.at(i - b.n, s0), s0)
-                arr = z3.Lambda([i], z3.If(i < b.n, z3.Select(b.arr, i), ev))
-                st.add(src.n >= 0)
-                store(VListB(arr, b.n + src.n))
+                store(self.concat_list(b, src, st))
                 return [(self.none(), st)]
         if isinstance(b, VSetB):
             if meth == 'add':
